@@ -40,6 +40,10 @@ def dataset(name, fam):
         obs = 20 + 1.2 * np.maximum(50 - T, 0) + 6.0 * np.maximum(T - np.sort(T)[-4], 0) + rng.normal(0, 1.0, days)
     elif name == "lateheat":        # mirror image: heating only on the 3 coldest days
         obs = 20 + 6.0 * np.maximum(np.sort(T)[3] - T, 0) + 1.2 * np.maximum(T - 65, 0) + rng.normal(0, 1.0, days)
+    elif name == "inverted":        # usage peaks in mild weather and falls towards both temperature extremes: the initial guess finds no
+        obs = 45 - 0.5 * np.abs(T - 60) + rng.normal(0, 1.0, days)      # heating or cooling slope at all
+    elif name.startswith("flatn"):  # temperature-independent usage; the noise decides the sign of the trend at either end
+        obs = 30 + np.random.default_rng(int(name[5:])).normal(0, 2.0, days)
     else:                           # short330
         obs = 22 + 1.1 * np.maximum(55 - T, 0) + 1.4 * np.maximum(T - 65, 0) + rng.normal(0, 1.0, days)
     return pd.DataFrame({"temperature": T, "observed": np.maximum(obs, 0.1)}, index=idx), {"is_electricity_data": True}
